@@ -242,6 +242,8 @@ def build(m: M, name="M", strict=False, extra_ns=None, split=None) -> Built:
                 nm = e[1:]
                 if nm not in fns:
                     fns[nm] = _mk_fn_async(nm) if "a" in flags_of("fn", nm) else _mk_fn_sync(nm)
+                    # "x#2": a second, distinct callable that happens to have the same __name__
+                    fns[nm].__name__ = nm.split("#")[0]
                 out.append(fns[nm])
             else:
                 out.append(e)
